@@ -507,11 +507,11 @@ def gen_circuit(cirq, rng, kinds, tags=True, nest=True, mods=None):
 # transformer configurations
 class Cfg:
     def __init__(self, name, variant, call, cat, kinds=('unitary', 'measured'), ctx=True, deep=True, ignore=True, contract='same',
-                 reference=None, same=eq_plain, sub_exempt=False, n=1.0, tags=True, nest=True, expect_raise=None, perm=False):
+                 reference=None, same=eq_plain, sub_exempt=False, n=1.0, tags=True, nest=True, expect_raise=None, perm=False, inplace=None):
         self.name, self.variant, self.call, self.cat, self.kinds = name, variant, call, cat, kinds
         self.ctx, self.deep, self.ignore, self.contract = ctx, deep, ignore, contract
         self.reference, self.same, self.sub_exempt, self.n = reference, same, sub_exempt, n
-        self.tags, self.nest, self.expect_raise, self.perm = tags, nest, expect_raise, perm
+        self.tags, self.nest, self.expect_raise, self.perm, self.inplace = tags, nest, expect_raise, perm, inplace
 
     @property
     def id(self):
@@ -547,8 +547,8 @@ def make_configs(cirq, mods):
     MEAS = ('unitary', 'measured', 'terminal')
     RE = ('unitary', 'measured', 'terminal', 'qudit')
     # ---- reorder-only ----
-    C.append(Cfg('align_left', '', ctx_call(t.align_left), 'reorder', kinds=RE))
-    C.append(Cfg('align_right', '', ctx_call(t.align_right), 'reorder', kinds=RE))
+    C.append(Cfg('align_left', '', ctx_call(t.align_left), 'reorder', kinds=RE, inplace='index'))
+    C.append(Cfg('align_right', '', ctx_call(t.align_right), 'reorder', kinds=RE, inplace='index_from_end'))
     C.append(Cfg('stratified_circuit', 'no categories', ctx_call(t.stratified_circuit), 'reorder', kinds=RE, n=0.5))
     C.append(Cfg('stratified_circuit', 'gate types', ctx_call(t.stratified_circuit, categories=[cirq.XPowGate, cirq.ZPowGate, cirq.MeasurementGate]), 'reorder', kinds=RE, n=0.5))
     C.append(Cfg('stratified_circuit', 'predicate', ctx_call(t.stratified_circuit, categories=[lambda op: len(op.qubits) == 1, cirq.CZ]), 'reorder', kinds=RE, n=0.5))
@@ -711,6 +711,14 @@ def run_case(ctx, cirq, cfg, circuit, kind, deep, ignore, checks, case_no):
             only_sub = all(isinstance(o.untagged, cirq.CircuitOperation) for o in miss)
             ctx.violation(f'{cfg.name}:ignored-op-touched' + (':subcircuit-unrolled' if only_sub else ''), f'{cfg.id}: operation(s) carrying the ignored tag were changed or removed: {miss[:3]!r}; {desc}\noutput:\n{out}',
                           dict(kind='ignored', missing=repr(miss), output=repr(out), **rep))
+        if cfg.inplace and not miss:
+            # documented for align_left/right: ignored operations "continue to stay in their original position"
+            def positions(c):
+                n = len(c)
+                return sorted((repr(op), i if cfg.inplace == 'index' else n - 1 - i) for i, m in enumerate(c) for op in m if IGN in op.tags)
+            if positions(circuit) != positions(out):
+                ctx.violation(f'{cfg.name}:ignored-op-moved', f'{cfg.id}: an operation carrying the ignored tag did not stay in its moment; {desc}\noutput:\n{out}',
+                              dict(kind='ignored-moved', output=repr(out), **rep))
     # (iv) sub-circuits are only rewritten when deep=True
     if not deep and not cfg.sub_exempt:
         ins = top_circuit_ops(cirq, circuit)
